@@ -33,7 +33,7 @@ AllFired == Live => R.fired = R.shots /\ R.answered = R.shots
 
 Letters == {R.ammo[j] : j \in 1..Len(R.ammo)}
 Shots(x) == Cardinality({j \in 1..Len(R.ammo) : R.ammo[j] = x})
-StepName(k, n) == IF n = 1 /\ R.gun \in {"http", "http2", "grpc"} THEN "" ELSE <<"a", "b">>[k]
+StepName(k, n) == IF n = 1 /\ R.gun \in {"http", "http2", "connect", "grpc"} THEN "" ELSE <<"a", "b">>[k]
 
 Matches(s, e) == /\ (IF e.proto = GE400 THEN s.proto >= 400 ELSE s.proto = e.proto)
                  /\ s.err = e.err
